@@ -608,9 +608,12 @@ def model_family(q):
         r3 = ['u', 'n', 'e', 't']
         fp3 = [('name', 'obj', 'name'), ('obj', 'frozen', 'obj')]
         add('I3', 'I3', RQ + ['r'], [], [], [('a', 'b', 'c')], fp3, [False])
+        # fork children / collider roots are symmetric under the full template product: 3 namings up to symmetry
+        sym3 = [('c', 'b', 'a'), ('b', 'a', 'c'), ('a', 'b', 'c')]
+        sym3c = [('c', 'b', 'a'), ('a', 'c', 'b'), ('a', 'b', 'c')]
         add('CH3', 'CH3', r3, c1, all_c2, perm3, fp3[:1], [True])
-        add('FK3', 'FK3', r3, c1, all_c2, perm3, fp3[:1], [False])
-        add('CO3', 'CO3', RQ, c1, all_c2, perm3, fp3[:1], [False])
+        add('FK3', 'FK3', r3, c1, all_c2, sym3, fp3[:1], [False])
+        add('CO3', 'CO3', RQ, c1, all_c2, sym3c, fp3[:1], [False])
         add('FULL3', 'FULL3', ['u', 'n', 'e'], c1[:8], all_c2, perm3, fp3[:1], [True])
         add('MIX3', 'MIX3', r3, c1, all_c2, perm3[:3], fp3[:1], [False])
     # drop duplicates produced by form normalisation (frozen/alias fall back to obj/name where not applicable)
@@ -624,17 +627,16 @@ def model_family(q):
     return uniq
 
 
-def _grad_requests(m, q):
-    """Requests of the grad part: default, every closed subset in sorted order, the reversed full list
-    (thorough: every closed request)."""
+def _light_requests(m):
+    """default, every closed subset in sorted order, the reversed full list."""
     closed = [r for r in R.requests(m) if R.is_closed(m, r)]
-    if not q:
-        return [None] + closed
     full = sorted(R.names(m))
     out = [None] + [r for r in closed if r == sorted(r)]
     if len(full) > 1:
         out.append(full[::-1])
     return out
+
+
 
 
 def run(ctx):
@@ -643,7 +645,7 @@ def run(ctx):
     V = [R.enc(v) for v in (V_QUICK if q else V_THOROUGH)]
     Vfin = [v for v in V if isinstance(v, float)]
     base = ctx.seed * 1000
-    seeds = [base + k for k in range(1 if q else 3)]
+    seeds = [base + k for k in range(1 if q else 2)]
     fam = model_family(q)
     per_family = {}
     dens, shp, rvs, grd = [], [], [], []
@@ -653,26 +655,27 @@ def run(ctx):
         pf['models'] += 1
         pf['lite'] += int(lite)
         d_all = len(m['nodes'])
+        light_reqs = _light_requests(m)
         for req in [None] + R.requests(m):
             if req is not None and not R.is_closed(m, req):
                 n_open += 1
                 continue
             dens.append({'kind': 'density', 'model': m, 'req': req, 'V': V})
-            if lite:
+            if lite and req in light_reqs:
                 shp.append({'kind': 'shapes', 'model': m, 'req': req, 'V': V, 'full': not q})
-            if lite or req is None:
+            if req is None or (lite and req in light_reqs):
                 rvs.append({'kind': 'rvs', 'model': m, 'req': req, 'seeds': seeds,
                             'global_sizes': [None] if q else [None, 1, 3]})
         if lite:
-            for req in _grad_requests(m, q):
+            for req in light_reqs:
                 d = d_all if req is None else len(req)
                 if q:
                     Vg = {1: Vfin, 2: [0.75, 1.0, 1.5, 2.0], 3: [1.0, 1.5, 2.0]}[d]
                 else:
-                    Vg = {1: Vfin, 2: [0.75, 1.0, 1.25, 1.5, 2.0, 3.0], 3: [0.75, 1.0, 1.5, 2.0]}[d]
+                    Vg = {1: Vfin, 2: [0.75, 1.0, 1.25, 1.5, 2.0, 3.0], 3: [1.0, 1.25, 1.5, 2.0]}[d]
                 hs = [None]
                 if req is None:
-                    hs += [1e-4, 'list'] + ([] if q else ['array'])
+                    hs += ['list'] if q else [1e-4, 'list', 'array']
                 for h in hs:
                     grd.append({'kind': 'grad', 'model': m, 'req': req, 'h': h, 'Vg': Vg, 'n_single': 1 if q else 3})
     ctx.count(models=len(fam), requests_not_ancestrally_closed_excluded=n_open, reference_selftest_derivatives=n_self)
@@ -696,9 +699,10 @@ def run(ctx):
                 '(default, every permutation, every ancestrally closed subset in every order) x part; density: every '
                 'point of V^dim on every model (evaluations = points x {pdf,logpdf}; non-trivial = every conditional '
                 'density of the reference is a finite number at the point; distinct by construction of the grid); '
-                'shapes and grad on the lite sub-family (first naming / form pattern of each family), rvs on every '
-                'model for the default request and on the lite sub-family for every request; there evaluations = real '
-                'ModelPrior calls compared with the reference')
+                'shapes, grad and rvs on the lite sub-family (first naming / form pattern of each family) x light '
+                'requests (default, every closed subset in sorted order, reversed full list), rvs additionally on '
+                'every model for the default request; there evaluations = real ModelPrior calls compared with the '
+                'reference')
     ctx.assumptions += [
         'reference = direct product of scipy.stats densities with the parent values substituted (rayleigh for the '
         'hand-written family); pdf compared with rtol %g (multiplication order), logpdf with %g*(1+|ref|), zero and '
